@@ -710,6 +710,7 @@ class Line(Component):
 
         self.not_fail()
         self.reset_load_flow_data()
+        self.restore_direction()
         # Ordinary lines are in service, backup lines are out of service
         # (their disconnectors are opened by Disconnector.reset_status)
         if not self.is_backup:
